@@ -203,15 +203,24 @@ func Gen(t *simkit.Tape, sched bool) *Scenario {
 			s.Tree = append(s.Tree, FileSpec{Rel: d, IsDir: true})
 		}
 	}
-	faultW := []int{12, 1, 1, 1, 1, 1, 1}
+	faultW := []int{12, 1, 1, 1, 1, 1, 1, 1}
 	if sched {
-		faultW = []int{20, 1, 1, 1, 1, 1, 0}
+		faultW = []int{20, 1, 1, 1, 1, 1, 0, 1}
+		if t.Bool(1, 6) {
+			faultW[6] = 12 // several inputs whose type cannot be detected (error paths of the workers)
+		}
 	}
+	oddNames := t.Bool(1, 4)
 	for i := 0; i < nfiles; i++ {
 		kind := []string{"xml", "html", "json"}[t.Pick(4, 2, 2)]
 		dir := dirs[t.Draw(len(dirs))]
 		ext := extsFor[kind][t.Draw(len(extsFor[kind]))]
-		f := FileSpec{Rel: filepath.Join(dir, fmt.Sprintf("f%d%s", i, ext)), Kind: kind}
+		base := fmt.Sprintf("f%d", i)
+		if oddNames && t.Bool(1, 2) {
+			// names that are hostile to printf-style formatting, shells and splitting
+			base = fmt.Sprintf("%s%d", []string{"100%", "%s", "a b", "é", "x=y", "%d%%", "n-", "a:b"}[t.Draw(8)], i)
+		}
+		f := FileSpec{Rel: filepath.Join(dir, base+ext), Kind: kind}
 		switch t.Pick(faultW...) {
 		case 0:
 			f.Content = genContent(t, kind)
@@ -235,6 +244,17 @@ func Gen(t *simkit.Tape, sched bool) *Scenario {
 			f.Rel = filepath.Join(dir, fmt.Sprintf("f%d%s", i, []string{".txt", "", ".bin", ".XML"}[t.Draw(4)]))
 			f.Fault = "unsupported-or-unknown-extension"
 			f.Kind = "other"
+		case 7:
+			// a symlink to an earlier regular, parsable file of the same kind: processed like a file
+			for _, prev := range s.Tree {
+				if !prev.IsDir && prev.Symlink == "" && prev.Fault == "" && filepath.Ext(prev.Rel) == ext && filepath.Dir(prev.Rel) == filepath.Dir(f.Rel) {
+					f.Symlink, f.Fault = filepath.Base(prev.Rel), "symlink-to-file"
+					break
+				}
+			}
+			if f.Symlink == "" {
+				f.Content = genContent(t, kind)
+			}
 		}
 		s.Tree = append(s.Tree, f)
 	}
